@@ -14,6 +14,9 @@ package main
 //   kseq   <fa|fq> <hex>                                     C/kseq reader against the Go chunk parser
 //   file   <fa|fq1|gb0|em0> <plain|gz> <hex>                 the universal entry point ReadSequencesFromFile on a real file
 //                                                            (Ropen + OBIMimeTypeGuesser + dispatch + the real reader)
+//   sniff  <plain|gz> <hex> [mime]                           Ropen (magic number, BOM) + OBIMimeTypeGuesser on a real file: the
+//                                                            guessed MIME type is appended to the case line for the model
+//   pair   <hexF> <hexR>                                     two FASTQ files through ReadSequencesFromFile + PairTo (paired reading)
 //
 // results: records `id:def:seq:qual[:taxid:sci:feat]#nann` (hex fields) separated by spaces, `none`, `fatal`, `panic`, `hang`.
 
@@ -213,7 +216,8 @@ func c01Parse(f c01Fmt, data []byte) (string, []c01Rec) {
 	res := guardT(5*time.Second, func() string {
 		sl, err := f.parser()("src", bytes.NewBuffer(append([]byte{}, data...)))
 		if err != nil {
-			return "err"
+			// every _Parse*File worker turns a parser error into log.Fatalf (EMBL: scanner.Err(), patch C01-embl-scanner-err)
+			return "fatal"
 		}
 		recs = c01FromSlice(sl, f.flat)
 		return ""
@@ -644,6 +648,15 @@ func c01RefEmbl(data []byte, withFeat bool) ([]c01Rec, bool) {
 		recs = append(recs, r)
 	}
 	return recs, true
+}
+
+// number of bytes up to and including the `+` of the first FASTQ record (what the fastq detector has to see)
+func c01FastqFirstRecordSpan(data []byte) int {
+	k := bytes.Index(data, []byte("\n+"))
+	if k < 0 {
+		return len(data)
+	}
+	return k + 2
 }
 
 func c01Ref(f c01Fmt, data []byte) ([]c01Rec, bool) {
@@ -1360,6 +1373,25 @@ func (c01) Gen(rng *rand.Rand, tier string, emit func(string)) {
 		emit(c)
 	}
 
+	// ---- format sniffing (Ropen + OBIMimeTypeGuesser): first bytes that decide, BOM, tiny files, look-alikes
+	fqLong := func(n int) string { return "@r1 long read\n" + rep("ACGT", n/4) + "\n+\n" + rep("I", n/4*4) + "\n" }
+	for _, c := range []string{
+		"\xef\xbb\xbf>a d\nACGT\n", "\xef\xbb\xbf@a\nAC\n+\nII\n", "\xef\xbb\xbfID   A; SV 1;\n//\n", ">", ">a", "> a\nAC\n", ">\nAC\n", "@", "@a", "@a\nAC\n", "@a\nAC\n+",
+		"@ a\nAC\n+\nII\n", "@a\n\nAC\n+\nII\n", "@a\nA C\n+\nII\n", "@a\r\nAC\r\n+\r\nII\r\n", "@a\rAC\r+\rII\r", "@a b\nAC\n\n+\nII\n",
+		"@HD\tVN:1.6\tSO:coordinate\n@SQ\tSN:chr1\tLN:1000\n", "ID", "ID   ", "ID  A;\n//\n", "ID   A; SV 1;\nXX\n//\n", "LOCUS", "LOCUS       ", "LOCUS      A 4 bp\n",
+		"LOCUS       A 4 bp\nFEATURES    x\nORIGIN\n        1 acgt\n//\n", "GBPLN1.SEQ          Genetic Sequence Data Bank\n                          October 15 2023\n\nLOCUS       A 4 bp\n",
+		"GBPLN1.SEQ Genetic Sequence Data Bank  \n", "GBPLN1.SEQ Genetic Sequence Data Bank x\n", "a b Genetic Sequence Data Bank\n", " Genetic Sequence Data Bank\n", "GenBank\nx Genetic Sequence Data Bank\n",
+		"#@ecopcr-v2\n# x\n", "#@ecopcr-v1\n", "a,b\n1,2\n3,4\n", "id,seq\n", "\n>a\nAC\n", " >a\nAC\n", "x", "\x1f", "\x1f\x8b", "BZ", "BZh", "\x28\xb5\x2f", "\xfd7zXZ",
+		">a <svg x\nACGT\n", ">a <?xml x\nACGT\n", ">a <html>\nACGT\n", "@a {\"x\":1}\nAC\n+\nII\n",
+		fqLong(2000), fqLong(3040), fqLong(3052), fqLong(3056), fqLong(3060), fqLong(3072), fqLong(3100), fqLong(5000),
+		">" + rep("t", 4000) + "\nACGT\n",
+	} {
+		emit("sniff plain " + h(c))
+		if len(c) > 2 && len(c) < 200 {
+			emit("sniff gz " + h(c))
+		}
+	}
+
 	type plan struct {
 		kind     string
 		files    int
@@ -1405,6 +1437,14 @@ func (c01) Gen(rng *rand.Rand, tier string, emit func(string)) {
 			if len(data) > 0 && (pl.kind == "fa" || pl.kind == "fq" || fi < 1 || (fi < 2 && tier == "thorough")) {
 				emit("file " + map[string]string{"fa": "fa", "fq": "fq1", "gb": "gb0", "em": "em0"}[pl.kind] + " " + []string{"plain", "gz"}[fi%2] + " " + hexd)
 			}
+			// format sniffing on every generated file, plain and gzip alternately
+			if len(data) > 0 {
+				emit("sniff " + []string{"plain", "gz"}[(fi+1)%2] + " " + hexd)
+			}
+			// paired reading: a mate file with the same number of records
+			if pl.kind == "fq" && nrec > 0 && fi%3 == 0 {
+				emit("pair " + hexd + " " + hx(c01GenFastq(rng, nrec)))
+			}
 		}
 	}
 	// malformed stream: mutated well-formed files and small-alphabet noise (model tie on every branch incl. fatal/panic)
@@ -1431,6 +1471,9 @@ func (c01) Gen(rng *rand.Rand, tier string, emit func(string)) {
 			if j == 0 {
 				emit(fmt.Sprintf("pipe %s %d %d bytes %s", c01Opts(rng, kind), b, 1+rng.Intn(3), hexd))
 			}
+		}
+		if i%3 == 0 && len(data) > 0 {
+			emit("sniff plain " + hexd)
 		}
 	}
 	if tier == "thorough" {
@@ -1886,6 +1929,162 @@ func (c01) Exec(c string) (string, []Fail) {
 		}
 		stat("file-compared")
 		return "same", fails
+
+	case "sniff":
+		if (len(w) != 3 && len(w) != 4) || (w[1] != "plain" && w[1] != "gz") {
+			return "bad-op", nil
+		}
+		data, ok := unhx(w[2])
+		if !ok {
+			return "bad-op", nil
+		}
+		stat("op:sniff:" + w[1])
+		raw := data
+		if w[1] == "gz" {
+			var b bytes.Buffer
+			zw := gzip.NewWriter(&b)
+			zw.Write(data)
+			zw.Close()
+			raw = b.Bytes()
+		}
+		tmp, err := os.CreateTemp("", "c01-sniff-*")
+		if err != nil {
+			return "bad-op", nil
+		}
+		tmp.Write(raw)
+		tmp.Close()
+		defer os.Remove(tmp.Name())
+		mime := ""
+		res := guardT(20*time.Second, func() string {
+			rd, err := obiformats.Ropen(tmp.Name())
+			if err == obiformats.ErrNoContent {
+				mime = "empty"
+				return ""
+			}
+			if err != nil {
+				mime = "open-error"
+				return ""
+			}
+			defer rd.Close()
+			m, _, err := obiformats.OBIMimeTypeGuesser(rd)
+			if err != nil || m == nil {
+				mime = "guess-error"
+				return ""
+			}
+			mime = m.String()
+			if k := strings.IndexByte(mime, ';'); k >= 0 {
+				mime = mime[:k] // "text/plain; charset=utf-8"
+			}
+			return ""
+		})
+		if res != "" {
+			fail("outcome."+res, "Ropen + OBIMimeTypeGuesser: %s", res)
+			return res, fails
+		}
+		caseOverride = "sniff " + w[1] + " " + w[2] + " " + mime
+		stat("sniff-mime:" + mime)
+		// oracle: a well-formed file of one of the four formats is dispatched to its own parser
+		for _, fm := range []struct{ name, mime string }{{"fa", "text/fasta"}, {"fq1", "text/fastq"}, {"gb0", "text/genbank"}, {"em0", "text/embl"}} {
+			f, _ := c01Format(fm.name)
+			if want, wf := c01Ref(f, data); wf && len(want) > 0 {
+				stat("sniff-wellformed:" + fm.name)
+				if mime != fm.mime {
+					cls := "dispatch"
+					if fm.name == "fq1" && c01FastqFirstRecordSpan(data) > 3072 {
+						// the detectors only see the first 3072 bytes (mimetype read limit)
+						cls = "dispatch-long-first-record"
+					}
+					fail(fm.name+"."+cls, "well-formed %s file (%s) guessed as %s", fm.name, w[1], mime)
+				}
+			}
+		}
+		switch mime {
+		case "text/fasta", "text/fastq", "text/ecopcr2", "text/genbank", "text/embl":
+			return "ok " + mime, fails
+		case "text/plain", "application/octet-stream", "text/csv", "empty":
+			return "ok other", fails
+		}
+		// a built-in detector of the mimetype library claimed the file before the OBITools detectors were asked
+		stat("sniff-builtin")
+		caseTrivial = true
+		return "builtin", fails
+
+	case "pair":
+		if len(w) != 3 {
+			return "bad-op", nil
+		}
+		dataF, ok1 := unhx(w[1])
+		dataR, ok2 := unhx(w[2])
+		if !ok1 || !ok2 {
+			return "bad-op", nil
+		}
+		stat("op:pair")
+		f, _ := c01Format("fq1")
+		wantF, wfF := c01Ref(f, dataF)
+		wantR, wfR := c01Ref(f, dataR)
+		if !wfF || !wfR || len(wantF) != len(wantR) || len(wantF) == 0 {
+			return "bad-op", nil
+		}
+		names := [2]string{}
+		for i, d := range [][]byte{dataF, dataR} {
+			tmp, err := os.CreateTemp("", "c01-pair-*.fastq")
+			if err != nil {
+				return "bad-op", nil
+			}
+			tmp.Write(d)
+			tmp.Close()
+			names[i] = tmp.Name()
+			defer os.Remove(tmp.Name())
+		}
+		var gotF, gotR []c01Rec
+		ordered, mated := true, true
+		res := guardT(30*time.Second, func() string {
+			opts := []obiformats.WithOption{obiformats.OptionsParallelWorkers(3), obiformats.OptionFastSeqDoNotParseHeader(), obiformats.OptionsReadQualities(true)}
+			a, err := obiformats.ReadSequencesFromFile(names[0], opts...)
+			if err != nil {
+				return "err"
+			}
+			b, err := obiformats.ReadSequencesFromFile(names[1], opts...)
+			if err != nil {
+				return "err"
+			}
+			it := a.PairTo(b)
+			nb := 0
+			for it.Next() {
+				bt := it.Get()
+				if bt.Order() != nb {
+					ordered = false
+				}
+				nb++
+				for _, sq := range bt.Slice() {
+					gotF = append(gotF, c01FromSeq(sq, false))
+					m := sq.PairedWith()
+					if m == nil || m.PairedWith() != sq {
+						mated = false
+						continue
+					}
+					gotR = append(gotR, c01FromSeq(m, false))
+				}
+			}
+			return ""
+		})
+		if res != "" {
+			fail("outcome."+res, "paired reading of two well-formed files: %s", res)
+			return res, fails
+		}
+		if !ordered {
+			fail("order", "paired batches are not delivered in order 0,1,2,…")
+		}
+		if !mated {
+			fail("mate-missing", "a delivered read has no mate (or the mate does not point back)")
+		}
+		if d := c01Diff(gotF, wantF); d != "" {
+			fail("forward."+d, "forward reads differ from the records of the forward file (%s)", d)
+		}
+		if d := c01Diff(gotR, wantR); d != "" {
+			fail("reverse."+d, "mates differ from the records of the reverse file, in file order (%s)", d)
+		}
+		return "paired " + strconv.Itoa(len(gotF)), fails
 
 	case "kseq":
 		if len(w) != 3 || (w[1] != "fa" && w[1] != "fq") {
